@@ -14,7 +14,7 @@ open KotoVerif KotoVerif.Serde
 /-- an `Ext` for the non-vacuity examples (no float keys / float casts occur in them) -/
 def X0 : Ext :=
   { fmtFloat := fun _ => [], widen := fun b => b.toUInt64, narrow := fun b => b.toUInt32,
-    f2i := fun _ => 0, i2f := fun _ => 0, i2f32 := fun _ => 0 }
+    f2i := fun _ => 0, f2iOk := fun _ => true, i2f := fun _ => 0, i2f32 := fun _ => 0 }
 
 /-! ## Koto value → serde data model → Koto value -/
 
@@ -492,19 +492,36 @@ theorem out_of_range_is_error_toKoto (X : Ext) (n : Int) (h : n < i64Min ∨ i64
 
 example : toKoto X0 (.int 18446744073709551615) = none := by decide
 
-/-- deserializer.rs side — only partial: the wide unsigned kinds reject negative numbers … -/
-theorem out_of_range_is_error_fromKoto_partial (X : Ext) (a : Int64) (h : a.toInt < 0) :
-    fromKoto X (.int .u64) (.num (.i a)) = none ∧ fromKoto X (.int .u128) (.num (.i a)) = none := by
-  have : ¬ (0 : Int) ≤ a.toInt := by omega
-  simp [fromKoto, fromInt, IntK.wide, IntK.lo, numI64, this]
+/-- **out_of_range_is_error**, deserializer.rs side (`from_koto_value` into an integer type, after
+fix 277d668): whatever integer comes out lies in the target type's range — so a number outside it
+(an `i64` beyond the bounds, or a float that is NaN / beyond ±2^63, for which `number_to_i64` has no
+value) is an error, never a saturated or wrapped value. -/
+theorem out_of_range_is_error_fromKoto (X : Ext) (k : IntK) (v : Val) (x : RVal)
+    (h : fromKoto X (.int k) v = some x) : hasTy (.int k) x = true := by
+  cases v <;> simp [fromKoto] at h
+  rename_i n
+  unfold fromInt at h
+  cases hn : numI64 X n <;> simp [hn] at h
+  obtain ⟨hr, rfl⟩ := h
+  simp [hasTy, hr.1, hr.2]
 
-/-- … but the narrow kinds (and every kind for a float input) saturate instead of failing: the
-negation of "out-of-range input yields an error" for `from_koto_value` (finding F-C20-1;
-`u8::from(KNumber)` is a saturating cast and `u8::try_from` resolves to it). -/
-theorem fromKoto_saturates_witness (X : Ext) :
-    fromKoto X (.int .u8) (.num (.i 300)) = some (.int 255) ∧
-    fromKoto X (.int .i8) (.num (.i (-1000))) = some (.int (-128)) := by
-  constructor <;> rfl
+theorem out_of_range_int_is_error (X : Ext) (k : IntK) (a : Int64) (h : a.toInt < k.lo ∨ k.hi < a.toInt) :
+    fromKoto X (.int k) (.num (.i a)) = none := by
+  have : ¬ (k.lo ≤ a.toInt ∧ a.toInt ≤ k.hi) := by omega
+  simp [fromKoto, fromInt, numI64, this]
+
+theorem out_of_range_float_is_error (X : Ext) (k : IntK) (b : UInt64) (h : X.f2iOk b = false) :
+    fromKoto X (.int k) (.num (.f b)) = none := by
+  simp [fromKoto, fromInt, numI64, h]
+
+/-- the former witnesses of F-C20-1 (`u8 ← 300` was `255`, `i8 ← -1000` was `-128`) are errors now,
+and the bounds themselves are accepted -/
+example (X : Ext) : fromKoto X (.int .u8) (.num (.i 300)) = none ∧
+    fromKoto X (.int .i8) (.num (.i (-1000))) = none ∧
+    fromKoto X (.int .u64) (.num (.i (-1))) = none ∧
+    fromKoto X (.int .u8) (.num (.i 255)) = some (.int 255) ∧
+    fromKoto X (.int .i8) (.num (.i (-128))) = some (.int (-128)) := by
+  refine ⟨rfl, rfl, rfl, rfl, rfl⟩
 
 /-! ## Rust data → Koto value → Rust data (`to_koto_value` / `from_koto_value`) -/
 
